@@ -786,6 +786,12 @@ func evaluate(s *Scenario, st *runStats) (fail *Failure) {
 		if raceEnabled {
 			st.Probes["race_detector_active"]++
 		}
+		if obs.Stalled {
+			st.Probes["finished_free_running_task_blocked_on_parked_task"]++
+		}
+		if obs.Foreign {
+			st.Probes["finished_without_preemption_library_started_goroutines"]++
+		}
 		nontrivial = obs.Switches > 0
 		{
 			h := uint64(obs.Switches)
